@@ -276,3 +276,106 @@ def shrink_text(cps, still_fails, budget=200):
                     i += k
             k //= 2
     return cur
+
+
+# ------------------------------------------------------------------ corpus, verdict, replay
+def load_corpus(prop):
+    """inputs of saved replay files (minimised disagreements / violations) and hand-kept seeds; run first"""
+    out = []
+    d = os.path.join(core.VERIF, "corpus", prop)
+    if os.path.isdir(d):
+        for fn in sorted(os.listdir(d)):
+            if fn.endswith(".json"):
+                try:
+                    o = json.load(open(os.path.join(d, fn), encoding="utf-8"))
+                    if "text" in o:
+                        out.append([ord(c) for c in o["text"]])
+                except Exception:
+                    pass
+    seeds = os.path.join(core.VERIF, "corpus", "lex_seeds.txt")
+    if os.path.exists(seeds):
+        for line in open(seeds, encoding="utf-8"):
+            line = line.rstrip("\n")
+            if line:
+                out.append([ord(c) for c in json.loads(line)])
+    return out
+
+
+def oracle_on_impl(text_cps, mb, flags, oracle):
+    rq = lex_request(text_cps, mb, flags)
+    b = core.run_impl([rq], flags=flags)[0]
+    st, tr = parse_answer(b)
+    if st != "OK":
+        return None, b
+    return oracle(show(text_cps), flags, tr), b
+
+
+def decide(run, proofs_ok, disagreements, oracle_failures, oracle, oracle_name, theorem, search, kf_filter=None):
+    """steps 4-5 of the verdict logic (DESIGN 2.4) for a lexer property"""
+    kfs = core.known_findings(run.prop)
+    # replay the recorded known findings
+    for kf in kfs:
+        if kf.get("status") != "open":
+            continue
+        w = kf["witness"]
+        v, b = oracle_on_impl([ord(c) for c in w["text"]], w.get("mybatis", False), w.get("flags", 7), oracle)
+        if v:
+            run.known("%s: %s (witness %r)" % (kf["id"], kf["description"], w["text"]))
+    new = []
+    for of in oracle_failures:
+        tag = kf_filter(of) if kf_filter else None
+        if tag and any(k["id"] == tag and k.get("status") == "open" for k in kfs):
+            run.known("%s: %s" % (tag, [k for k in kfs if k["id"] == tag][0]["description"]))
+            continue
+        new.append(of)
+    if new:
+        # shrink the first failing input and report it
+        of = new[0]
+        cps = [ord(c) for c in of["text"]]
+
+        def still(c):
+            if kf_filter:
+                pass
+            v, _ = oracle_on_impl(c, of["mybatis"], of["flags"], oracle)
+            return bool(v)
+        small = shrink_text(cps, still, budget=60)
+        v, b = oracle_on_impl(small, of["mybatis"], of["flags"], oracle)
+        rep = dict(of)
+        rep.update({"text": show(small), "request": lex_request(small, of["mybatis"], of["flags"]), "observed": b,
+                    "oracle_verdict": v, "oracle": oracle_name, "shrunk_from": of["text"],
+                    "broken": run.broken, "other_failing_inputs": [x["text"] for x in new[1:6]]})
+        run.violation(rep)
+        return
+    if proofs_ok and not disagreements:
+        return
+    # proof or tie broken, but no failing input yet: search
+    if disagreements:
+        run.broken.append({"kind": "correspondence", "stream": disagreements[0]["stream"], "count": len(disagreements),
+                           "first": {k: disagreements[0][k] for k in ("text", "flags", "mybatis", "model", "observed")}})
+    found = search(run.budget(6000, 60000))
+    found = [f for f in found if not (kf_filter and kf_filter(f) and any(k["id"] == kf_filter(f) and k.get("status") == "open" for k in kfs))]
+    if found:
+        of = found[0]
+        cps = [ord(c) for c in of["text"]]
+        small = shrink_text(cps, lambda c: bool(oracle_on_impl(c, of["mybatis"], of["flags"], oracle)[0]), budget=60)
+        v, b = oracle_on_impl(small, of["mybatis"], of["flags"], oracle)
+        rep = dict(of)
+        rep.update({"text": show(small), "request": lex_request(small, of["mybatis"], of["flags"]), "observed": b,
+                    "oracle_verdict": v, "oracle": oracle_name, "shrunk_from": of["text"], "broken": run.broken})
+        run.violation(rep)
+    else:
+        run.violation({"kind": "obligation", "theorem": theorem, "broken": run.broken, "oracle": oracle_name,
+                       "note": "the proof / the model-implementation tie no longer checks; the search found no input on which the "
+                               "property oracle fails"}, no_input=True)
+
+
+def replay_lex(obj, oracle):
+    if obj.get("kind") != "input":
+        print("replay: obligation-only replay file; re-run the check to re-examine", obj.get("theorem"))
+        return 1
+    cps = [ord(c) for c in obj["text"]]
+    v, b = oracle_on_impl(cps, obj.get("mybatis", False), obj.get("flags", 7), oracle)
+    print("input   :", repr(obj["text"]))
+    print("observed:", b)
+    print("oracle  :", v or "ok")
+    return 1 if v else 0
